@@ -149,43 +149,25 @@ def g2_generation_bump(prog):
         r.viol('G2', 'missing', '-', 'anchor Slot::activate_unchecked not found')
         return r
     f = cands[0]
-    body = f.body
     gen = adt_field_index(prog, 'Slot', 'generation')
     r.inst(f.path)
-    writes = []
-    for b, i, s in body.stmts():
-        if s['k'] == 'assign' and s['place']['p'] and receiver_name(prog, body, {'copy': s['place']}) == 'self.generation':
-            writes.append((b, i, s))
-    for b, t in body.calls():
-        if t['k'] == 'call' and t['dest']['p'] and receiver_name(prog, body, {'copy': t['dest']}) == 'self.generation':
-            writes.append((b, None, t))
-    if not writes:
-        r.viol('G2', 'no-write', f.loc(), 'activate_unchecked does not write self.generation: a reused slot would keep its generation and stale identifiers would resolve again')
+    E = pathsem.analyse(prog, f)
+    rets = [p for p in E.paths if p.ended == 'return']
+    if E.truncated or not rets:
+        r.viol('G2', 'not-analysable', f.loc(), 'path enumeration cut off')
         return r
-    for b, i, w in writes:
-        ok = False
-        if i is None:
-            # call: wrapping_add(self.generation, const != 0)
-            fn = w['f']
-            if fn['name'] in ('wrapping_add', 'checked_add', 'saturating_add', 'add') and len(w['args']) == 2:
-                a0 = receiver_name(prog, body, w['args'][0])
-                c = op_const(w['args'][1])
-                ok = a0 == 'self.generation' and c is not None and c.get('val', 0) != 0
-        else:
-            rv = w['rv']
-            if rv['k'] == 'binop' and rv['op'].startswith('Add'):
-                a0 = receiver_name(prog, body, rv['a'])
-                c = op_const(rv['b'])
-                ok = a0 == 'self.generation' and c is not None and c.get('val', 0) != 0
-            elif rv['k'] == 'use':
-                l = op_local(rv['op'])
-                d = single_def(body, l) if l is not None else None
-                if d and d[0] == 'call' and d[2]['f']['name'] in ('wrapping_add',):
-                    a0 = receiver_name(prog, body, d[2]['args'][0])
-                    c = op_const(d[2]['args'][1])
-                    ok = a0 == 'self.generation' and c is not None and c.get('val', 0) != 0
-        if not ok:
-            r.viol('G2', 'not-a-bump', f.loc(w['ln']), 'write to self.generation is not old generation + non-zero constant')
+    bad = None
+    for p in rets:
+        stores = [e for e in p.events if e['k'] == 'store' and pathsem.is_field_of(e['loc'], 'Slot', gen) and pathsem.mentions(e['loc'], lambda t: t[0] == 'p' and t[1] == 1)]
+        if not stores:
+            r.viol('G2', 'no-write', f.loc(), 'activate_unchecked does not write self.generation on every path: a reused slot would keep its generation and stale identifiers would resolve again')
+            return r
+        st = stores[-1]
+        d = pathsem.lin(st['value']) - pathsem.lin(st['loc'])
+        if not (d.is_const() and d.const != 0):
+            bad = bad or st
+    if bad is not None:
+        r.viol('G2', 'not-a-bump', f.loc(bad['ln']), 'write to self.generation (%s) is not old generation + non-zero constant' % pathsem.tstr(bad['value']))
     return r
 
 
